@@ -771,6 +771,12 @@ func Run(ctx *common.Ctx) int {
 			if !quick && F <= 2 && nW <= 2 {
 				bound, shards = 2, 8
 			}
+			if !quick && F == 2 && nW == 2 {
+				bound, shards = 3, 16 // the smaller configurations deeper
+			}
+			if !quick && F == 1 && nW <= 2 {
+				bound, shards = 4, 16
+			}
 			if quick && F == 3 && nW == 3 {
 				shards = 4
 			}
@@ -940,7 +946,7 @@ func Run(ctx *common.Ctx) int {
 		"max_points_per_execution": m.MaxPoints,
 		"end_to_end_runs":          e2e,
 		"race_pass_runs":           raceRuns,
-		"bounds":                   "deviation bound 1 (thorough: 2 for F<=2, n<=2); F<=3 files; n<=3 workers (64 with F=3 in thorough)",
+		"bounds":                   "deviation bound 1 (thorough: 4 for F=1 with n<=2, 3 for F=2 with n=2, 2 for the other F<=2, n<=2); F<=3 files; n<=3 workers (64 with F=3 in thorough)",
 		"exhaustive":               len(m.Capped) == 0 && len(m.ToolErrors) == 0,
 	}
 	return ctx.Finish("model_checking", cov, []string{"file writes of the report, channel operations, WaitGroup operations and goroutine starts are scheduling points; the tests themselves run uninterrupted (they are pure, C18)",
